@@ -1025,3 +1025,41 @@ pub fn migrate_oversized_datagram_native(_x: u8) -> u32 {
     assert!(sent_small, "a datagram that fits the new path is stuck behind one that no longer does ({} queued)", conn.datagrams.outgoing.len());
     1
 }
+
+/// Native replay body for the E2 query `e2_first_packet_dedup` (C04): the datagram that created the
+/// connection is delivered to the server a second time (replayed / duplicated by the network) and is
+/// routed to the now existing connection.  It must be recognised as a duplicate: nothing about it is
+/// authenticated or processed again.
+pub fn first_packet_replay_native(pn: u8) -> u32 {
+    let mut conn = mk_conn(true, false);
+    conn.spaces[SpaceId::Initial].crypto = Some(nullcrypto::tagged_keys(0));
+    let now = crate::verif::mk_instant(51, 0).unwrap();
+    let remote = addr(1, 4433);
+    // long header, Initial, 1-byte packet number; DCID = the connection's initial CID, empty token
+    let mut hdr = vec![0xc0u8, 0, 0, 0, 1, 8, 1, 1, 1, 1, 1, 1, 1, 1, 8, 3, 3, 3, 3, 3, 3, 3, 3, 0];
+    let payload = vec![0u8; 40]; // PADDING only; the stand-in AEAD accepts a payload ending in 0
+    hdr.extend_from_slice(&[0x40, (1 + payload.len()) as u8]);
+    hdr.push(pn);
+    let header_len = hdr.len();
+    let mut datagram = hdr.clone();
+    datagram.extend_from_slice(&payload);
+    let first = InitialPacket {
+        header: InitialHeader { dst_cid: ConnectionId::new(&[1; 8]), src_cid: ConnectionId::new(&[3; 8]), token: Bytes::new(), number: PacketNumber::U8(pn), version: 1 },
+        header_data: Bytes::copy_from_slice(&datagram[..header_len]),
+        payload: BytesMut::from(&payload[..]),
+    };
+    conn.handle_first_packet(now, remote, None, pn as u64, first, None).ok().expect("first Initial accepted");
+    let authed = conn.total_authed_packets;
+    assert!(authed == 1);
+    // the very same datagram again
+    let (first_decode, remaining) = PartialDecode::new(BytesMut::from(&datagram[..]), &FixedLengthConnectionIdParser::new(8), &[1], true).ok().expect("decodes");
+    conn.handle_event(ConnectionEvent(ConnectionEventInner::Datagram(DatagramConnectionEvent { now, remote, ecn: None, first_decode, remaining })));
+    assert!(conn.total_authed_packets == authed, "the replayed first Initial was authenticated and processed a second time");
+    // a different packet number is not a duplicate
+    let mut other = datagram.clone();
+    other[header_len - 1] = pn.wrapping_add(1);
+    let (first_decode, remaining) = PartialDecode::new(BytesMut::from(&other[..]), &FixedLengthConnectionIdParser::new(8), &[1], true).ok().expect("decodes");
+    conn.handle_event(ConnectionEvent(ConnectionEventInner::Datagram(DatagramConnectionEvent { now, remote, ecn: None, first_decode, remaining })));
+    assert!(conn.total_authed_packets == authed + 1, "a fresh Initial was not processed");
+    1
+}
